@@ -1142,17 +1142,17 @@ def gen_dispatch(sigs_c, sigs_l, cfgs):
             if pt[0] == 'ptr':
                 kind = ptr[pn]
                 if kind[0] == 'bv':
-                    cl.append('\t\tuint8_t %s[%d]; { size_t n_; uint8_t *b_ = hex2bytes(tok(), &n_); memset(%s, 0, %d); memcpy(%s, b_, n_ < %d ? n_ : %d); free(b_); }' % (pn, kind[1], pn, kind[1], pn, kind[1], kind[1]))
+                    cl.append('\t\tuint8_t %s[%d]; { size_t n_; uint8_t *b_ = hex2bytes(tok() + 1, &n_); memset(%s, 0, %d); memcpy(%s, b_, n_ < %d ? n_ : %d); free(b_); }' % (pn, kind[1], pn, kind[1], pn, kind[1], kind[1]))
                     cargs.append(pn)
-                    largs += ['(bufOfHex %d (a[%d]!))' % (kind[1], i), '0', '%d' % kind[1]]
+                    largs += ['(bufOfHex %d ((a[%d]!).drop 1).toString)' % (kind[1], i), '0', '%d' % kind[1]]
                     if pn in sig['written']:
                         outs_c.append('printf(" %s="); put_hex(%s, %d);' % (pn, pn, kind[1]))
                         outs_l.append('" %s=" ++ hexOfBuf %d r.%s_buf' % (pn, kind[1], pn))
                 elif kind[0] == 'fn':
-                    cl.append('\t\tsize_t %s_n; uint8_t *%s_raw = hex2bytes(tok(), &%s_n); uint8_t *%s = exact_copy(%s_raw, %s_n); free(%s_raw);' % ((pn,) * 7))
+                    cl.append('\t\tsize_t %s_n; uint8_t *%s_raw = hex2bytes(tok() + 1, &%s_n); uint8_t *%s = exact_copy(%s_raw, %s_n); free(%s_raw);' % ((pn,) * 7))
                     cargs.append(pn)
                     frees.append('free(%s);' % pn)
-                    largs += ['(memOfHex (a[%d]!))' % i, '0', '(BitVec.ofNat 64 ((a[%d]!).length / 2))' % i]
+                    largs += ['(memOfHex ((a[%d]!).drop 1).toString)' % i, '0', '(BitVec.ofNat 64 (((a[%d]!).length - 1) / 2))' % i]
                 elif kind[0] == 'out':
                     cl.append('\t\t%s %s = (%s) tok_ull();' % (CT[kind[1]], pn, CT[kind[1]]))
                     cargs.append('&' + pn)
